@@ -28,6 +28,7 @@ THEOREMS = [
     "KrroodVerif.Rdr.C08_end_to_end",
     "KrroodVerif.Rdr.C08_build_authored",
     "KrroodVerif.Rdr.C08_end_to_end_authored_full",
+    "KrroodVerif.Rdr.C08_build_authored_at",
     "KrroodVerif.Rdr.C08_eval",
     "KrroodVerif.Rdr.C08_eval_partial",
     "KrroodVerif.Rdr.C08_today_end_to_end",
